@@ -19,6 +19,9 @@ PREFIX_PROP = {"d8b687c": ["C06"], "da7613f": ["C16"], "64a92d9": ["C02"], "2c87
                "9db7846": ["C17"], "23f20cf": ["C17"], "b18464c": ["C07"], "d06cb78": ["C10"]}
 
 
+CURRENT = {}
+
+
 def sh(cmd, cwd=None):
     return subprocess.run(cmd, shell=True, cwd=cwd, stdout=subprocess.PIPE, stderr=subprocess.STDOUT, text=True).stdout
 
@@ -33,8 +36,16 @@ def run(patch, prop):
         out = sh("./check %s quick" % prop, cwd=VERIF)
     finally:
         sh("git checkout -q -- .", cwd="/repo")
-        sh("rm -rf replays/%s" % prop, cwd=VERIF)
     buckets = re.findall(r"VIOLATION property=\S+ replay=\S+\s+\[([^\]]+)\]", out)
+    # keep the (shrunk) reproducer of the first bucket as a regression case for that check
+    m = re.search(r"VIOLATION property=\S+ replay=(\S+)", out)
+    if m and CURRENT.get("name"):
+        dst = os.path.join(VERIF, "replays", "regress", prop)
+        os.makedirs(dst, exist_ok=True)
+        src = os.path.join(VERIF, m.group(1))
+        if os.path.exists(src) and os.path.getsize(src) < 20000:
+            sh("cp %s %s" % (src, os.path.join(dst, CURRENT["name"] + ".json")))
+    sh("rm -rf replays/%s" % prop, cwd=VERIF)
     if "HARNESS-ERROR" in out:
         return "harness-error", buckets
     return ("detected" if buckets else "missed"), buckets
@@ -54,6 +65,7 @@ def main():
         else:
             props = EXTRA.get(name, [name.split("-")[0]])
         res = {}
+        CURRENT["name"] = name
         for prop in props:
             status, buckets = run(use, prop)
             res[prop] = {"status": status, "buckets": buckets[:6]}
